@@ -66,7 +66,7 @@ macro_rules! dbvec_seq {
         }
     };
 }
-dbvec_seq!(c16_dbvec_u8__ops_memory_safe__bnd, u8);
-dbvec_seq!(c16_dbvec_u64__ops_memory_safe__bnd, u64);
+dbvec_seq!(c16_dbvec_u8__ops_memory_safe__bnd__thr, u8);
+dbvec_seq!(c16_dbvec_u64__ops_memory_safe__bnd__thr, u64);
 
 include!("/verif/build/kani-gen/db_vec.playback.rs");
